@@ -51,10 +51,11 @@ FILES = {
     "src/analyzing/tightness.rs": ["C11", "C04"],
     "src/analyzing/private_recursion.rs": ["C11"],
     "src/analyzing/regularity.rs": ["C11", "C08"],
-    "src/command_line/files.rs": ["C20"],
+    "src/command_line/files.rs": ["C20", "C02", "C03"],
     "src/verifying/prover/mod.rs": ["C10"],
-    "src/command_line/procedures.rs": ["C10", "C16", "C18", "C03", "C02"],
+    "src/command_line/procedures.rs": ["C10", "C16", "C18", "C03", "C02", "C01", "C08", "C05", "C04", "C07", "C11"],
     "src/convenience/apply/mod.rs": ["C07", "C18"],
+    "src/verifying/prover/vampire.rs": ["C10"],
 }
 
 SWAPS = [("Quantifier::Forall", "Quantifier::Exists"), ("Conjunction", "Disjunction"), ("Implication", "ReverseImplication"),
@@ -79,6 +80,11 @@ TEXT_RULES = [
     ("is_empty-not", re.compile(r"(?<![!\w\.])(\w+(?:\.\w+)*\.is_empty\(\))"), r"!\1"), ("contains-not", re.compile(r"(?<![!\w\.])(\w+(?:\.\w+)*\.contains\([^()]*\))"), r"!\1"),
     ("is_some->is_none", re.compile(r"\.is_some\(\)"), ".is_none()"), ("is_none->is_some", re.compile(r"\.is_none\(\)"), ".is_some()"),
     ("all->any", re.compile(r"\.all\(\|"), ".any(|"), ("any->all", re.compile(r"\.any\(\|"), ".all(|"),
+    ("first->last", re.compile(r"\.first\(\)"), ".last()"), ("last->first", re.compile(r"\.last\(\)"), ".first()"),
+    ("get1->get0", re.compile(r"\.get\(1\)"), ".get(0)"), ("get0->get1", re.compile(r"\.get\(0\)"), ".get(1)"),
+    ("not-flag", re.compile(r"(?<![\w!])!no_(\w+)"), r"no_\1"), ("min->max", re.compile(r"\.min\("), ".max("), ("max->min", re.compile(r"\.max\("), ".min("),
+    ("filter-not", re.compile(r"\.filter\(\|(\w+)\| (?!!)"), r".filter(|\1| !"), ("skip1->skip0", re.compile(r"\.skip\(1\)"), ".skip(0)"),
+    ("some->none", re.compile(r"=> Some\((\w+)\),"), "=> None,"),
 ]
 DELETE = re.compile(r"^\s*[\w\.\[\]]+\.(push|insert|extend|retain|remove|append|sort\w*|dedup|reverse|push_str|truncate|shift_remove|swap_remove)\(.*\);\s*$")
 
